@@ -5,6 +5,7 @@ import os
 import subprocess
 
 KEEP = {
+    "C01": ("generate", ("generated-value-validates", "no-exception", "generated-type")),
     "C02": ("visit", ("verdict",)),
     "C03": ("visit", ("value-error-true", "min-error-true", "max-error-true", "unexpected-error-kind")),
     "C08": ("visit", ("no-exception",)),
@@ -19,7 +20,9 @@ import sys
 sys.path.insert(0, "/verif/engine")
 import fpsym
 KIND, CFG, MODEL, CHECK = %r, %r, %r, %r
-if KIND == "visit":
+if KIND == "generate":
+    ok, detail = fpsym.replay_generate_float(tuple(CFG), MODEL)
+elif KIND == "visit":
     ok, detail = fpsym.replay_visit_float(tuple(CFG), MODEL)
 else:
     ok, detail = fpsym.replay_substitute_float(tuple(CFG), MODEL, CHECK)
@@ -47,7 +50,7 @@ def run(prop, tier, replay_dir, active_kf=()):
     summary = []
     for item in data:
         cfg = item["cfg"]
-        tag = "v%dmin%dmax%dp%s" % (cfg[0], cfg[1], cfg[2], cfg[3])
+        tag = ("min%dmax%dp%s" % tuple(cfg)) if len(cfg) == 3 else ("v%dmin%dmax%dp%s" % tuple(cfg))
         if item.get("error"):
             res["obligations"] += 1
             res["inconclusive"].append({"harness": "%s.fpsym.%s.%s" % (prop, kind, tag), "fn": kind, "why": item["error"]})
@@ -86,9 +89,11 @@ def run(prop, tier, replay_dir, active_kf=()):
         res["coverage"]["fpsym_excluded_by_known_finding_F12"] = "configs with a fixed value and no precision (isclose is not transitive)"
     res["samples"].append({"engine": "fpsym", "kind": kind, "configs": len(summary), "first": summary[:3]})
     res["coverage"]["fpsym_" + kind] = {
-        "functions": ["validation/_validator.py:Validator.visit_float"] + (["substitution/_substitutor.py:Substitutor.visit_float"] if kind != "visit" else []),
+        "functions": (["generation/_generator.py:Generator.visit_float", "generation/_random.py:Random.random_float"] if kind == "generate" else []) +
+                     ["validation/_validator.py:Validator.visit_float"] +
+                     (["substitution/_substitutor.py:Substitutor.visit_float"] if kind in ("usable", "narrow") else []),
         "format": "Float64 FP(11,53): value under validation = any double incl. +-inf, NaN, denormals; declared value/min/max = any non-NaN "
-                  "double consistent with what the DSL accepts (min <= value <= max); precision in %s" % sorted({str(s["cfg"][3]) for s in summary}),
+                  "double consistent with what the DSL accepts (min <= value <= max); precision in %s" % sorted({str(s["cfg"][-1]) for s in summary}),
         "checks_kept_for_this_property": list(keep), "per_config": summary,
         "stubs": "isclose/isfinite bound to their documented algorithms; int/float names shimmed so conversions keep the term; "
                  "float -> int conversions raise OverflowError/ValueError for inf/NaN as CPython does",
